@@ -353,8 +353,9 @@ def rule_add_dispatch(chk):
     # a message with no enclosing action is its own task only at level [1]
     oksp = False
     for t in cfg.live:
-        if t.kind == "test" and isinstance(t.exprs[0], ast.Compare) and isinstance(t.exprs[0].ops[0], ast.Eq):
-            for a_, b_ in ((t.exprs[0].left, t.exprs[0].comparators[0]), (t.exprs[0].comparators[0], t.exprs[0].left)):
+        e1_ = X.strip_not(t.exprs[0], "true")[0] if t.kind == "test" else None
+        if t.kind == "test" and isinstance(e1_, ast.Compare) and len(e1_.ops) == 1 and isinstance(e1_.ops[0], (ast.Eq, ast.NotEq)):
+            for a_, b_ in ((e1_.left, e1_.comparators[0]), (e1_.comparators[0], e1_.left)):
                 okc, cv = ctx.try_fold(f, b_)
                 if okc and isinstance(cv, (list, tuple)) and list(cv) == [1] and "task_level" in unparse(X.inline(f, a_)):
                     oksp = True
